@@ -17,8 +17,11 @@ from fractions import Fraction as F
 
 from ..lib import coqlit as L
 
-IMPORTS = ("From LV Require Import Common.Cases Msa.Profile Msa.Merge Msa.Refine Msa.MsaExec Msa.Alignments Msa.AlignHistory.\n"
-           "Open Scope nat_scope.")
+_BASE = "From LV Require Import Common.Cases Msa.Profile Msa.Merge Msa.Refine Msa.MsaExec%s.\nOpen Scope nat_scope."
+IMPORTS = _BASE % ""
+ALM_IMPORTS = _BASE % " Msa.Alignments"
+ALMH_IMPORTS = _BASE % " Msa.Alignments Msa.AlignHistory"
+SOP_IMPORTS = _BASE % " Msa.Score Msa.ScoreExec"
 
 # token inventory: plain IPA segments all three sound-class models know; several map to the
 # same SCA class (p/b, t/d, k/g, ...), tones exercise the restricted-character branch
@@ -37,7 +40,7 @@ COQ_CHECK = {"final": "CheckFinal", "immediate": "CheckImmediate"}
 GOPS = [-1, -2, -3, -5, 0]
 SCALES = [0.5, 1.0, 0.25, 0.75]
 FACTORS = [0.0, 0.25, 0.5, 1.0, 0.3]
-GAPWS = [0.0, 0.5, 1.0, 0.25, 1, 0.3]
+GAPWS = [0.0, 0.5, 1.0, 0.25, 1, 0.3, 0.75, 0.5]
 THRESHOLDS = [0.5, 0.3, 0.7, 0.1, 0.9, 1.5]
 
 
@@ -886,6 +889,119 @@ def classify_almh(case, res):
     return out
 
 
+# ----------------------------------------------------------------------------------------------
+# the score functions themselves: calign/talign.score_profile and Multiple.sum_of_pairs
+SOP_BITS = {6: "C11: a value of calign.score_profile / talign.score_profile / Multiple.sum_of_pairs differs from the "
+               "documented column score (sum of the pair scores over the non-gap pairs divided by their number plus "
+               "gap_weight times the number of gap pairs; mean over the columns) by more than 2^-30"}
+DYADIC_GW = [0.0, 0.25, 0.5, 0.5, 0.75, 1.0, 0.125, 1.5]
+
+
+def gen_sop_case(rng):
+    n = rng.randint(2, 7)
+    seqs = []
+    while len(seqs) < n:
+        w = gen_word(rng, 1, 5)
+        if w not in seqs:
+            seqs.append(w)
+    case = {"seqs": seqs, "scoredict_seed": rng.randrange(1 << 30), "hostile": rng.random() < 0.4,
+            "gop": rng.choice([-1, -2, 0, -3]), "mats": [], "cols": []}
+    cells = [[i, j] for i, s in enumerate(seqs) for j in range(len(s))]
+    for _ in range(rng.randint(1, 3)):
+        L = max(map(len, seqs)) + rng.randint(0, 3)
+        rows = []
+        for i in rng.sample(range(n), rng.randint(2, n)):
+            r = [[i, j] for j in range(len(seqs[i]))]
+            while len(r) < L:
+                r.insert(rng.randrange(len(r) + 1), None)
+            rows.append(r)
+        case["mats"].append({"sonars": rng.random() < 0.5, "gw": rng.choice(DYADIC_GW), "mat": rows})
+    for _ in range(rng.randint(2, 5)):
+        # a column holds at most one cell of every sequence (the scoring dictionary has no entries for two
+        # different positions of one sequence); the two columns come from the same or from disjoint sequences
+        def col(rows):
+            return [None if rng.random() < 0.55 else [i, rng.randrange(len(seqs[i]))] for i in rows]
+        if rng.random() < 0.4:
+            a = col(rng.sample(range(n), rng.randint(1, n)))
+            b = list(a)
+        else:
+            k = rng.randint(1, n - 1)
+            perm = rng.sample(range(n), n)
+            a, b = col(perm[:k]), col(perm[k:])
+        case["cols"].append({"gw": rng.choice(DYADIC_GW), "a": a, "b": b})
+    return case
+
+
+def run_sop_impl(case):
+    import lingpy.align.multiple as mm
+    seqs = [list(s) for s in case["seqs"]]
+    toks = sorted({t for s in seqs for t in s})
+    tcode = {t: i + 1 for i, t in enumerate(toks)}
+    r = random.Random(case["scoredict_seed"])
+    sd = {}
+    for a in toks:
+        for b in toks:
+            if (b, a) in sd:
+                sd[a, b] = sd[b, a]
+            elif a == b:
+                sd[a, b] = float(r.randint(1, 5))
+            else:
+                sd[a, b] = -float(r.randint(1, 9)) if case["hostile"] else float(r.randint(-4, 4))
+    objs = {}
+    for sonar in (True, False):
+        m = mm.Multiple(seqs)
+        m.prog_align(classes=False, sonar=sonar, scoredict=sd)
+        objs[sonar] = m
+
+    def cell(c):
+        return "X" if c is None else "%d.%d" % (c[0] + 1, c[1] + 1)
+
+    def guard(f):
+        try:
+            return str(F(f()))
+        except ZeroDivisionError:
+            return None
+
+    res = {"classes": [[tcode[t] for t in s] for s in seqs],
+           "table": [[tcode[a], tcode[b], str(F(v))] for (a, b), v in sorted(sd.items())], "mats": [], "cols": []}
+    scorer = objs[True].scorer
+    for e in case["mats"]:
+        mat = [[cell(c) for c in row] for row in e["mat"]]
+        res["mats"].append(guard(lambda: objs[e["sonars"]].sum_of_pairs("other", mat, e["gw"], case["gop"])))
+    for e in case["cols"]:
+        a, b = [cell(c) for c in e["a"]], [cell(c) for c in e["b"]]
+        res["cols"].append([guard(lambda: mm.calign.score_profile(a, b, scorer, gap_weight=e["gw"])),
+                            guard(lambda: mm.talign.score_profile(a, b, scorer, case["gop"], e["gw"]))])
+    return res
+
+
+def render_sop(case, res):
+    def oq(x):
+        return "None" if x is None else "(Some %s)" % L.q(F(x))
+
+    def line(l):
+        return L.lst([cell_lit(c) for c in l])
+    table = L.lst(["((%s, %s), %s)" % (L.z(a), L.z(b), L.q(F(v))) for a, b, v in res["table"]])
+    mats = L.lst(["(%s, %s, %s, %s)" % (L.b(e["sonars"]), L.q(F(e["gw"])), imat_lit(e["mat"]), oq(v))
+                  for e, v in zip(case["mats"], res["mats"])])
+    cols = L.lst(["(%s, %s, %s, %s, %s)" % (L.q(F(e["gw"])), line(e["a"]), line(e["b"]), oq(v[0]), oq(v[1]))
+                  for e, v in zip(case["cols"], res["cols"])])
+    return L.record("sop_case", [L.zmat(res["classes"]), table, L.q(F(case["gop"])), mats, cols])
+
+
+def nontrivial_sop(case, res):
+    """A measured matrix or column pair with at least two gap-gap pairs and a gap weight other than 0 and 1."""
+    for e in case["cols"]:
+        if e["gw"] not in (0.0, 1.0) and sum(c is None for c in e["a"]) * sum(c is None for c in e["b"]) >= 2:
+            return True
+    return False
+
+
+def classify_sop(case, res):
+    return ["sop:gw=%s" % e["gw"] for e in case["mats"] + case["cols"]] + \
+        ["sop:zero_division" for v in res["mats"] if v is None]
+
+
 def _view(**over):
     import types
     ns = types.SimpleNamespace(**{k: v for k, v in globals().items() if not k.startswith("__")})
@@ -895,7 +1011,9 @@ def _view(**over):
 
 
 C11View = _view(nontrivial=nontrivial_c11)
-AlmHView = _view(run_impl=run_almh_impl, render=render_almh, BITS=ALMH_BITS, nontrivial=nontrivial_almh,
+SopView = _view(IMPORTS=SOP_IMPORTS, run_impl=run_sop_impl, render=render_sop, BITS=SOP_BITS, nontrivial=nontrivial_sop,
+                shrink=lambda case: iter(()), classify=classify_sop)
+AlmHView = _view(IMPORTS=ALMH_IMPORTS, run_impl=run_almh_impl, render=render_almh, BITS=ALMH_BITS, nontrivial=nontrivial_almh,
                  shrink=shrink_almh, classify=classify_almh)
-AlmView = _view(run_impl=run_alm_impl, render=render_alm, BITS=ALM_BITS, nontrivial=nontrivial_alm,
+AlmView = _view(IMPORTS=ALM_IMPORTS, run_impl=run_alm_impl, render=render_alm, BITS=ALM_BITS, nontrivial=nontrivial_alm,
                 shrink=shrink_alm, classify=classify_alm)
